@@ -64,6 +64,7 @@ fn replay(ctx: &Ctx, w: &World, case: &Value) {
             }
         }
         "growth" => malformed::replay_growth(w, &case, l),
+        "blob-split" => extra::replay_blob_split(w, &case, l),
         "loader" => loader::replay_loader(ctx, w, &case, l),
         "include-valid" => loader::replay_include(ctx, w, &case, l),
         "short-range" => malformed::replay_short_range(w, &case, l),
@@ -130,7 +131,13 @@ fn main() {
          Extension families: ordered pairs/triples of DISTINCT RDATA shapes of one type in one RRset; every shape in classes CH and \
          HS; (thorough) every ordered 4-tuple of 6 envelopes on A/MX/TXT/AAAA x the state-carrying dimensions; names at the 63/255 \
          octet limits relative to origins of 9/129/193/253 octets at every name position (beyond the limit: must be rejected); \
-         decimal TTL tokens (leading zeros, up to 2^31-1); LOADER differential: SOA+NS+records written to a scratch root and loaded \
+         decimal TTL tokens (leading zeros, up to 2^31-1); TOKEN SPLITTING: for every type whose RDATA ends in a free-form hex / \
+         base64 field in which its RFC allows white space (TLSA RFC 6698 2.2, SMIMEA RFC 8162, DS RFC 4034 5.3, CERT RFC 4398 2.2) the \
+         field of every such alphabet shape is written as 2 tokens cut at EVERY character position (quick: 3 tokens at every pair of \
+         positions for TLSA/DS; thorough: 3 tokens everywhere + blobs of 128/64/598..600 octets) x separators {space, tab, newline in \
+         parentheses, comment + newline in parentheses}: the file must load to the same record as the un-split one (SSHFP RFC 4255 and \
+         OPENPGPKEY RFC 7929 are silent about inner white space: split outcome only counted; DNSKEY/RRSIG/CDS/... are not \
+         parser-supported types); LOADER differential: SOA+NS+records written to a scratch root and loaded \
          by the real FileZoneHandler::try_from_config(root_dir, zone_path), loaded zone and AXFR answer of the real Catalog == records \
          of the file; $INCLUDE in the valid direction: a 4-record file split at every pair of positions into parent + included file \
          (nested once) x included-file origin (inherited / own $ORIGIN; the unsupported $INCLUDE origin argument is only counted) x relative names on either side x final \
@@ -292,6 +299,15 @@ fn main() {
         eprintln!("[C20] name limits: {} cases, within={} beyond-rejected={} at {:.1}s", n, ctx.outcome_count("limits:within:loaded-exactly"), ctx.outcome_count("limits:beyond:rejected"), ctx.elapsed_s());
         if ctx.outcome_count("limits:within:loaded-exactly") == 0 || ctx.outcome_count("limits:beyond:rejected") == 0 {
             ctx.machinery_failure("vacuous: name-limit family exercised only one side of the limit");
+        }
+    }
+    // token-splitting dimension: trailing hex / base64 blobs written as 2..3 tokens
+    {
+        let n = extra::blob_splits(&ctx, &w, thorough);
+        ctx.set("valid_blob_split_cases", json!(n));
+        eprintln!("[C20] blob splits: {} cases, ok={} at {:.1}s", n, ctx.outcome_count("blob-split:ok"), ctx.elapsed_s());
+        if ctx.outcome_count("blob-split:ok") == 0 {
+            ctx.machinery_failure("vacuous: no split blob was loaded exactly");
         }
     }
     // the server's loader: parsed set == loaded zone == AXFR of the loaded zone
